@@ -21,6 +21,19 @@ ASSUMPTIONS = [
 ]
 
 
+def sent_signals(ctx, prog):
+    """the signal numbers that reach kill() from reproc_kill / reproc_terminate (read off the all-paths runs, so helpers do not matter)"""
+    out = []
+    for f in ("reproc_kill", "reproc_terminate"):
+        res, F, I = R.run(ctx, prog, f)
+        vals = set()
+        for e in R.ev_of(res, ("kill",)):
+            sv = e[3][1]
+            vals.add(next(iter(sv)) if sv is not None and len(sv) == 1 and isinstance(next(iter(sv)), int) else None)
+        out.append(sorted(vals, key=str))
+    return out[0], out[1]
+
+
 def decode_rules(ctx, prog):
     # the consumer of waitpid's status out-parameter
     consumers = []
@@ -72,8 +85,7 @@ def decode_rules(ctx, prog):
                 if any("WTERMSIG" in y.get("m", []) for y in walk_nodes(p)) and const_of(prog, q) is not None \
                         and not any("WTERMSIG" in y.get("m", []) for y in walk_nodes(q)):
                     offs.append(const_of(prog, q))
-    sigkill = [const_of(prog, n["c"][2]) for F2, n in callsites(prog, "kill") if F2.name == "process_kill"]
-    sigterm = [const_of(prog, n["c"][2]) for F2, n in callsites(prog, "kill") if F2.name == "process_terminate"]
+    sigkill, sigterm = sent_signals(ctx, prog)
     ok = len(set(offs)) == 1 and len(sigkill) == 1 and len(sigterm) == 1 and \
         prog.const("REPROC_SIGKILL") == offs[0] + sigkill[0] and prog.const("REPROC_SIGTERM") == offs[0] + sigterm[0]
     ctx.ob("C01.R5o", "%s: signal offset" % dec, "a signalled child is reported as offset + signal number, and the exported constants "
@@ -110,8 +122,7 @@ def decode_rules_waitid(ctx, prog, F, call):
                "a child that exited with code c is reported as c, a child ended by signal s - with or without a core dump - as 128 + s "
                "(evaluated for c = %d, s = %d / %d)" % (WAITID_SAMPLE["exited"], WAITID_SAMPLE["killed"], WAITID_SAMPLE["dumped"]),
                got.get(k) == {show(fs(want[k]))}, {"returns": sorted(got.get(k, [])), "expected": want[k]}, nontrivial=True)
-    sigkill = [const_of(prog, n["c"][2]) for F2, n in callsites(prog, "kill") if F2.name == "process_kill"]
-    sigterm = [const_of(prog, n["c"][2]) for F2, n in callsites(prog, "kill") if F2.name == "process_terminate"]
+    sigkill, sigterm = sent_signals(ctx, prog)
     ok = len(sigkill) == 1 and len(sigterm) == 1 and prog.const("REPROC_SIGKILL") == 128 + sigkill[0] and prog.const("REPROC_SIGTERM") == 128 + sigterm[0]
     ctx.ob("C01.R5o", "signal offset", "the exported constants REPROC_SIGKILL / REPROC_SIGTERM equal 128 + the signals the library itself sends",
            ok, {"SIGKILL": sigkill, "SIGTERM": sigterm})
